@@ -55,10 +55,24 @@ def evaluate(case):
 @st.composite
 def random_cases(draw):
     C = draw(st.sampled_from([6, 7, 10, 10, 12, 20, 20, 30, 60, 100]))
-    fam = draw(st.sampled_from(["planted", "hard", "hard", "hard", "halves+big", "halves+big", "planted-slack", "uniform", "many-equal", "mid"]))
+    fam = draw(st.sampled_from(["planted", "hard", "hard", "hard", "halves+big", "halves+big", "forced-waste", "forced-waste", "planted-slack", "uniform", "many-equal", "mid"]))
     if fam == "hard":
         C = max(C, 12)
         fam, values, _ = draw(S.hard_packing(C, max_bins=4, max_len=12))
+    elif fam == "forced-waste":
+        # 4-5 items so big that nothing else fits beside them - together they waste at least a whole bin, so the optimum lies ABOVE
+        # ceil(total/binsize) - plus two planted bins of three items of about 0.4 / 0.3 / 0.3 of the bin, on which best-fit-decreasing
+        # needs a third bin
+        C = draw(st.sampled_from([20, 30, 50, 100]))
+        rest = []
+        for _ in range(2):
+            a = draw(st.integers((36 * C) // 100, (44 * C) // 100))
+            b = draw(st.integers((28 * C) // 100, (32 * C) // 100))
+            rest += [a, b, C - a - b]
+        smallest = min(rest)
+        nbig = draw(st.integers(4, 5))
+        bigs = [min(C, C - smallest + 1 + draw(st.integers(0, max(0, C // 20)))) for _ in range(nbig)]
+        values = list(draw(st.permutations(rest + bigs)))
     elif fam == "halves+big":
         # a perfect packing made of one bin of two exact halves and 1-3 bins holding one item above half plus exact fillers: the number of
         # items of at least half a bin is then optimum + 1 (a bound that counts exact halves as "big" is off by one exactly here)
